@@ -1020,21 +1020,31 @@ class ModelBuilder:
 
                 from dateutil.relativedelta import relativedelta
 
-                match = re.match(r"(\d+)([dwmy])", duration_str)
+                match = re.fullmatch(r"(\d+)(min|[dwmyh])", duration_str)
                 if match:
                     amount = int(match.group(1))
                     unit = match.group(2)
-                    if unit == "d":
+                    if unit == "min":
+                        end_date = start_date + relativedelta(minutes=amount)
+                    elif unit == "h":
+                        end_date = start_date + relativedelta(hours=amount)
+                    elif unit == "d":
                         end_date = start_date + relativedelta(days=amount)
                     elif unit == "w":
                         end_date = start_date + relativedelta(weeks=amount)
                     elif unit == "m":
                         end_date = start_date + relativedelta(months=amount)
-                    elif unit == "y":
-                        end_date = start_date + relativedelta(years=amount)
                     else:
-                        end_date = start_date
+                        end_date = start_date + relativedelta(years=amount)
                     project["end"] = end_date
+
+        # Scheduling needs a horizon: a header without a usable duration is an input error,
+        # not something to discover as a TypeError in the middle of the scheduler
+        if project.attributes.get("end") is None:
+            raise ValueError(
+                f"Project '{proj_data['id']}' has no end: the header needs a duration "
+                f"such as '+3m' after the start date (got {duration_str!r})"
+            )
 
         # Apply project attributes
         self._apply_project_attributes(project, proj_data.get("attributes", []))
